@@ -219,6 +219,20 @@ func isDecOutOfRange(t *tinfo) func(col int, l lit) bool {
 }
 
 // ---------------------------------------------------------------------------------------------
+// C03-decimal-bound-rounded-to-column-scale
+
+var hundred = big.NewRat(100, 1)
+
+// isFinerThanScale: a numeric literal with more than two fractional digits compared with an
+// indexed DECIMAL(10,2) column.
+func isFinerThanScale(t *tinfo) func(col int, l lit) bool {
+	w := t.sh.indexedWeight()
+	return func(col int, l lit) bool {
+		return t.sh.cols[col].k == kDec && w[col] > 0 && l.r != nil && !new(big.Rat).Mul(l.r, hundred).IsInt()
+	}
+}
+
+// ---------------------------------------------------------------------------------------------
 // C03-noteq-fraction-on-decimal-or-double
 
 // negatedFracLits calls f for every non-integral numeric literal that is compared for
@@ -410,6 +424,7 @@ const (
 	kfDateTrunc     = "C03-date-range-truncates-datetime-literal"
 	kfCIIgnored     = "C03-ci-collation-ignored-in-filter"
 	kfTupleNull     = "C03-tuple-in-null-component"
+	kfDecScale      = "C03-decimal-bound-rounded-to-column-scale"
 )
 
 var findings = []finding{
@@ -529,6 +544,31 @@ var findings = []finding{
 			setup: []string{"CREATE TABLE ti (d DECIMAL(10,2), KEY kd (d))", "CREATE TABLE tn (d DECIMAL(10,2))",
 				"INSERT INTO ti VALUES (1.50), (2.00)", "INSERT INTO tn VALUES (1.50), (2.00)"},
 			where: "d < 100000000",
+		},
+	},
+	{
+		// An indexed DECIMAL(10,2) column compared with a literal that has more than two
+		// fractional digits: the index range bound is the literal *rounded* to the column scale
+		// (there is no floor/ceil adjustment as for integer columns), so `d > -0.001` becomes the
+		// range (-0.00, inf) and loses the row 0.00; `d < 1.504` loses 1.50. (When the comparison
+		// is the whole WHERE clause the literal is rounded before analysis on both paths, which
+		// hides the difference; inside an OR it is not.)
+		id:      kfDecScale,
+		sig:     func(t *tinfo, p pred) bool { return anyLit(p, isFinerThanScale(t)) },
+		outcome: outcome.bothOK,
+		steer: func(t *tinfo, p pred) {
+			in := isFinerThanScale(t)
+			forEachColLit(p, func(col int, l lit) lit {
+				if in(col, l) {
+					return numLit(l.r.FloatString(2))
+				}
+				return l
+			})
+		},
+		witness: witness{
+			setup: []string{"CREATE TABLE ti (d DECIMAL(10,2), KEY kd (d))", "CREATE TABLE tn (d DECIMAL(10,2))",
+				"INSERT INTO ti VALUES (0.00), (1.50), (-1.00)", "INSERT INTO tn VALUES (0.00), (1.50), (-1.00)"},
+			where: "d > -0.001 OR d = NULL",
 		},
 	},
 	{
